@@ -6,3 +6,4 @@ pub mod engine;
 pub mod gen;
 pub mod props;
 pub mod refmodel;
+pub mod rt;
